@@ -42,7 +42,11 @@ def sib_export(ctx: Ctx) -> List[Ob]:
     obs: List[Ob] = []
     m = ctx.model
 
+    kf_known: Dict[str, bool] = {}
+
     def O(f, label, ok, why="", node=None):
+        if ok is False and kf_known.get(f.qualname) is False and ("key" in label or "index" in label or "node 0" in label):
+            ok = None  # the key function is not the nested `key(n)` helper these clauses read the keys through
         obs.append(ctx.tri("SIB-EXPORT", ["C17"], f, label, node, ok, why))
 
     def inner(f, node, scope):
@@ -58,6 +62,7 @@ def sib_export(ctx: Ctx) -> List[Ob]:
         O(f, f"{q}: key(n) = n._data_id if unique_nodes else n._node_id", (kf is not None) if cand else None,
           "one graph node per distinct data_id, or per tree node when unique_nodes is off")
         kname = kf.name if kf else "_no_key_function_"
+        kf_known[f.qualname] = kf is not None
         loops = _loops_over(f, "node")
         O(f, f"{q}: node loop and edge loop both iterate `node` (same pre-order walk)", True if len(loops) == 2 else (None if loops else False), f"{len(loops)} loops over the start node")
         if len(loops) != 2:
@@ -421,12 +426,20 @@ def render(ctx: Ctx) -> List[Ob]:
         nv = lp.target.id
         ys = [x for x in ast.walk(lp) if isinstance(x, ast.Yield)]
         all_ys = [x for x in iter_own(rl.node) if isinstance(x, (ast.Yield, ast.YieldFrom))]
-        if len(ys) == 1 and len(all_ys) == 1 and isinstance(ys[0].value, ast.BinOp) and isinstance(ys[0].value.op, ast.Add):
-            left = resolve_expr(ctx, rl, ys[0], ys[0].value.left)
-            e_ = match(f"{nv}._get_prefix(style, $$ls)", left)
+        # one yield, or the same line spelled once per rendering mode (callable / template) under complementary tests
+        def _complementary(ys_) -> bool:
+            if len(ys_) != 2:
+                return False
+            cs_ = [cond_texts([(a_, p_) for a_, p_ in path_conds(ctx, rl, y_) if any(a_ is z or getattr(a_, "_orig", None) is z for z in ast.walk(lp))]) for y_ in ys_]
+            return all(len(c_) == 1 for c_ in cs_) and (next(iter(cs_[0])) in ("not " + next(iter(cs_[1])), "not (" + next(iter(cs_[1])) + ")")
+                                                          or next(iter(cs_[1])) in ("not " + next(iter(cs_[0])), "not (" + next(iter(cs_[0])) + ")"))
+
+        if ys and len(all_ys) == len(ys) and all(isinstance(y_.value, ast.BinOp) and isinstance(y_.value.op, ast.Add) for y_ in ys) and (len(ys) == 1 or _complementary(ys)):
+            es_ = [match(f"{nv}._get_prefix(style, $$ls)", resolve_expr(ctx, rl, y_, y_.value.left)) for y_ in ys]
+            e_ = es_[0] if all(x is not None for x in es_) and len({norm(x["$$ls"]) for x in es_}) == 1 else None
             ok = e_ is not None and match("self.iterator(add_self=add_self)", lp.iter) is not None \
                 and not any(isinstance(x, (ast.Continue, ast.Break, ast.Return)) for st in lp.body for x in ast.walk(st)) \
-                and not [a_ for a_, _p in path_conds(ctx, rl, ys[0]) if any(a_ is y or getattr(a_, "_orig", None) is y for y in ast.walk(lp))]
+                and (len(ys) == 2 or not [a_ for a_, _p in path_conds(ctx, rl, ys[0]) if any(a_ is y or getattr(a_, "_orig", None) is y for y in ast.walk(lp))])
             if e_ is not None and isinstance(e_["$$ls"], ast.Name):
                 lsv = e_["$$ls"].id
     T(rl, "_render_lines yields prefix + rendering exactly once per node of the default (pre-order) walk", ok, "one line per node, in pre-order")
@@ -453,7 +466,7 @@ def render(ctx: Ctx) -> List[Ob]:
     lst_loops = []
     if lst and oth and len(lst) + len(oth) == len(ys):
         lst_loops = [n for n in iter_own(fi.node) if isinstance(n, ast.For) and all(any(c.stmt is x for x in ast.walk(n)) for c in lst)]
-        ok = None if (len(lst_loops) != 1 or any(isinstance(c.stmt, ast.YieldFrom) for c in lst)) else match("self.iterator(add_self=add_self)", lst_loops[0].iter) is not None and len(lst) <= 2 \
+        ok = None if (len(lst_loops) != 1 or any(isinstance(c.stmt, ast.YieldFrom) for c in lst) or not isinstance(lst_loops[0].iter, ast.Call)) else match("self.iterator(add_self=add_self)", lst_loops[0].iter) is not None and len(lst) <= 2 \
             and all(norm(c.value) in (f"repr({norm(lst_loops[0].target)})", f"repr.format(node={norm(lst_loops[0].target)})") for c in lst) \
             and all(isinstance(c.stmt, ast.YieldFrom) and "_render_lines" in norm(c.value) for c in oth)
     T(fi, "list style emits the renderings only, once per node of the walk", ok, "style='list' has no prefixes")
@@ -487,6 +500,18 @@ def render(ctx: Ctx) -> List[Ob]:
         offs = [n for n in iter_own(fi.node) if isinstance(n, ast.Assign) and norm(n) == "add_self = False"
                 and any(p_ and norm(a_) == "style == 'list'" for a_, p_ in path_conds(ctx, fi, n))]
         ok = len(offs) == 1 and not_after(ctx, fi, offs[0], lst_loops[0])
+        if not ok and not offs and not isinstance(lst_loops[0].iter, ast.Call):
+            # the walk is prepared elsewhere: every walk that reaches the loop must switch add_self off for the system root
+            vals_ = reaching_values(ctx, fi, lst_loops[0], lst_loops[0].iter)
+            calls_ = [v_ for v_ in vals_ if isinstance(v_, ast.Call) and norm(v_.func) == "self.iterator"]
+            if calls_ and len(calls_) == len(vals_):
+                def off_for_root(c_):
+                    kw_ = {k.arg: norm(k.value) for k in c_.keywords}
+                    ts_ = cond_texts(path_conds(ctx, fi, c_))
+                    return (kw_.get("add_self") == "False" and ("not self._parent" in ts_ or "self._parent is None" in ts_)) or ("self._parent" in ts_ or "not (self._parent is None)" in ts_)
+                ok = True if all(off_for_root(c_) for c_ in calls_) else None
+            else:
+                ok = None
         T(fi, "list style never renders the invisible system root", ok,
           "tree.format(style='list', title=...) would emit an extra line for the system root")
     # render path calls no kind-sensitive override
